@@ -16,9 +16,11 @@ RULE = (
     "and functions whose coefficients are signature defaults), conditioning values g and quantile levels. Oracle: a fresh "
     "template instance constructed with the parameter values computed from the *spec* (harness evaluation of the shape, never "
     "the DependenceFunction object) gives the same pdf/cdf/icdf (rtol 1e-9: the two routes to the parameter value may differ in the last ulp; vectorised vs one-at-a-time rtol 1e-10 (numpy vector and scalar kernels differ in the last bits)) and the same seeded samples (rtol 1e-11); vectorised == "
-    "one-at-a-time; fixed parameters constant in g. Non-trivial: >= 2 distinct g and a dependent parameter varying >= 10 % over them."
+    "one-at-a-time; fixed parameters constant in g; part history: evaluate - change the dependence coefficients - evaluate again at the "
+    "same scalar conditioning value (a stale cache would serve the old value). Non-trivial: >= 2 distinct g and a dependent parameter varying >= 10 % over them."
 )
 ASSUMPTIONS = [
+    "part history: the dependence functions are changed between evaluations by assigning / updating DependenceFunction.parameters (what a re-fit does); the use_defaults variant is not used there",
     "the template's own methods with constructed parameters are the reference (their formula correctness is C05)",
     "sampling agreement is equality to 1e-11 under the same integer seed; distributional correctness of samples is C07",
 ]
@@ -144,6 +146,94 @@ def strat_case(draw, tier):
     )
 
 
+# ------------------------------------------------------------------------ part history
+def check_history(case, ctx):
+    """evaluate - change the dependence functions - evaluate again at the same conditioning values:
+    the conditional distribution must follow the *current* dependence values (no stale state)"""
+    from virocon.distributions import ConditionalDistribution
+
+    lvl, lvl2 = case["level"], case["level2"]
+    family = lvl["family"]
+    names = F.param_names(family)
+    ctx.cls(f"history:{family}", f"change={case['change']}")
+    spec = [dict(family="Weibull", params=dict(alpha=1, beta=1, gamma=0)), lvl]
+    desc = build.description(spec)[1]
+    cond = ConditionalDistribution(desc["distribution"], desc["parameters"])
+    gs = [float(g) for g in case["gs"]]
+    q = float(case["q"])
+
+    def reference(level, g, method):
+        th = refmodel.level_params(level, np.asarray(g, dtype=float))
+        t = build.dist(family, {k: float(np.asarray(th[k])) for k in names})
+        x = float(np.asarray(t.icdf(q))) if family != "VonMises" else float(np.asarray(th["mu"])) - 1.0
+        arg = q if method == "icdf" else x
+        return arg, float(np.asarray(getattr(t, method)(arg)))
+
+    method = case["method"]
+    # 1. evaluate at every g (scalar given), twice
+    for g in gs + gs[:1]:
+        arg, exp = reference(lvl, g, method)
+        ok, got = ctx.call(f"history:first:{family}:{method}", getattr(cond, method), arg, given=g)
+        if ok and not eq(got, exp, 1e-9):
+            ctx.violation(f"history:first_eval:{family}:{method}", f"g={g!r}: {float(np.asarray(got))!r} vs {exp!r}")
+            return
+    # 2. change the dependence functions (same shapes, new coefficients)
+    for pname, dspec in lvl2["dependent"].items():
+        df = cond.conditional_parameters[pname]
+        keys = list(df.parameters.keys())
+        if case["change"] == "set_parameters":
+            df.parameters = dict(zip(keys, [float(c) for c in dspec["coef"][: len(keys)]]))
+        else:
+            for k_, c in zip(keys, dspec["coef"]):
+                df.parameters[k_] = float(c)
+    ctx.nontrivial()
+    # 3. evaluate again at the same g, scalar first (the order in which a stale value would be served)
+    for g in gs[::-1] + gs:
+        arg, exp = reference(lvl2, g, method)
+        ok, got = ctx.call(f"history:second:{family}:{method}", getattr(cond, method), arg, given=g)
+        if ok and not eq(got, exp, 1e-9):
+            arg0, old = reference(lvl, g, method)
+            ctx.violation(
+                f"history:stale_after_change:{family}:{method}",
+                f"g={g!r}: after the dependence functions were changed {method}({arg!r}, given=g) = {float(np.asarray(got))!r}; template at the current dependence values gives {exp!r} (value before the change: {old!r})",
+            )
+            return
+        okv, gotv = ctx.call(f"history:second_vector:{family}:{method}", getattr(cond, method), np.array([arg, arg]), given=np.array([g, g]))
+        if okv and not eq(gotv, [exp, exp], 1e-9):
+            ctx.violation(f"history:stale_after_change_vector:{family}:{method}", f"g={g!r}: {np.asarray(gotv).tolist()} vs {exp!r}")
+            return
+    pv = cond._get_param_values(gs[0])
+    th = refmodel.level_params(lvl2, np.asarray(gs[0]))
+    for k in names:
+        if not eq(pv[k], float(np.asarray(th[k])), 1e-12):
+            ctx.violation(f"history:param_values_stale:{family}:{k}", f"g={gs[0]!r}: {pv[k]!r} vs {float(np.asarray(th[k]))!r}")
+            return
+
+
+@st.composite
+def strat_history(draw, tier):
+    family = draw(st.sampled_from(TEMPLATES))
+    x1 = draw(st.floats(1.0, 30.0))
+    lvl = draw(models.conditional_level(family, 0, 0.0, x1, allow_chain=False, nontrivial=True))
+    # second set of coefficients: same shapes (same number of coefficients), different values
+    lvl2 = dict(lvl)
+    dep2 = {}
+    for pname, d in lvl["dependent"].items():
+        for _ in range(6):
+            cand = draw(models.dep_spec(family, pname, 0.0, x1, nontrivial=True))
+            if cand["shape"] == d["shape"]:
+                break
+        else:
+            cand = dict(shape=d["shape"], coef=[c * 1.07 + 0.01 for c in d["coef"]])
+        dep2[pname] = dict(shape=d["shape"], coef=cand["coef"])
+    lvl2["dependent"] = dep2
+    return dict(
+        level=lvl, level2=lvl2, gs=draw(st.lists(st.floats(0.05, 1.0).map(lambda u: float(round(u * x1, 6))), min_size=1, max_size=3, unique=True)),
+        q=draw(st.floats(0.05, 0.95)), method=draw(st.sampled_from(["pdf", "cdf", "icdf"])), change=draw(st.sampled_from(["set_parameters", "update_in_place"])),
+    )
+
+
 PARTS = [
     Part("conditional", check_conditional, strat_case, quick=6000, thorough=200000, min_nontrivial_frac=0.4),
+    Part("history", check_history, lambda tier: strat_history(tier), quick=1500, thorough=30000, min_nontrivial_frac=0.4),
 ]
